@@ -127,7 +127,10 @@ class LCDDocFilter(DocumentFilter):
     style_filter.process_initial_values(doc)
 
     if doc.get_body() is not None:
-      style_filter.process_element(doc.get_body())
+      # tts:position is meaningful on regions only
+      SupportedStylePropertiesFilter(
+        {k: v for k, v in supported_styles.items() if k is not StyleProperties.Position}
+      ).process_element(doc.get_body())
 
     # clean-up animations
 
@@ -240,6 +243,8 @@ class LCDDocFilter(DocumentFilter):
         retained_regions[fingerprint] = region
       else:
         replaced_regions[region] = retained_region
+
+    doc.put_initial_value(StyleProperties.Position, None)
 
     # prune aliased regions
     if doc.get_body() is not None:
